@@ -1,6 +1,110 @@
+import math, os, random, re, shutil, struct, subprocess, tempfile, time
 from ..runner import Prop
-from .. import bbigen, bedgen68
+from .. import core, bbigen, bedgen68
 from ..core import parse_sx, sx
+
+# ---------------------------------------------------------------------------------------------------------------
+# info-tool stage: what `bigwiginfo` / `bigbedinfo` PRINT about a file = what the library reader returns for it
+# ---------------------------------------------------------------------------------------------------------------
+# covered-base counts whose three-digit groups are the boundary values of a thousands-separator routine
+# (0, 1, 9, 10, 99, 100, 101, 999 in a non-leading / leading position)
+BASES_FIXED = [100, 1000, 5100, 1005100, 10, 999, 100000, 1100000, 1000100, 5099, 5101, 1001, 1010, 1, 100100, 9009, 1000000, 2]
+GROUPS = [0, 1, 9, 10, 11, 99, 100, 101, 500, 999]
+NICE = [1.0, 2.0, 0.5, -1.0, 3.25, 100.0, -0.125, 7.0, 0.0]          # as bbigen.rand_f32(mode="nice"): every sum is exact
+GROUPED = re.compile(r"^[0-9]{1,3}(,[0-9]{3})*$")
+
+
+def bases_target(rng, i):
+    if i < len(BASES_FIXED):
+        return BASES_FIXED[i]
+    ng = rng.choice([1, 2, 2, 2, 3, 3])
+    lead = rng.choice([1, 5, 9, 10, 99, 100, 101, 999, rng.randrange(1, 1000)])
+    b = lead
+    for _ in range(ng - 1):
+        b = b * 1000 + rng.choice(GROUPS + [rng.randrange(1000)])
+    return b
+
+
+def blocks(rng, total, names):
+    """disjoint [s,e) blocks per chromosome whose lengths add up to `total` (>= 1)"""
+    k = min(total, rng.choice([1, 2, 3, 5, 8, 13]))
+    cuts = sorted(rng.sample(range(1, total), k - 1)) if k > 1 else []
+    lens = [b - a for a, b in zip([0] + cuts, cuts + [total])]
+    names = names[:max(1, min(len(names), k))]
+    per = {nm: [] for nm in names}
+    for j, ln in enumerate(lens):
+        per[names[j * len(names) // len(lens)]].append(ln)
+    out = []
+    for nm in names:
+        pos = rng.choice([0, 0, 3, 1000]); bl = []
+        for ln in per[nm]:
+            pos += rng.choice([0, 0, 1, 7, 100])
+            bl.append((pos, pos + ln)); pos += ln
+        out.append((nm, bl, pos + rng.choice([0, 1, 500])))
+    return out
+
+
+def info_case(rng, i, path):
+    """(case text, kind, bases the input covers)"""
+    kind = 20 if i % 2 == 0 else 21
+    total = bases_target(rng, i // 2)
+    names = sorted(rng.sample(bbigen.NAMES, rng.choice([1, 1, 2, 3])), key=lambda s: s.encode())
+    big = total > 2000000
+    manual = rng.choice([[], [], [[]], [[100, 1000]]]) if not big else [[]]
+    o = [rng.choice([0, 1]), rng.choice([1, 3, 7, 1024]), rng.choice([2, 4, 256]), 160, 10, manual, 1]
+    sizes = []; inp = []
+    for nm, bl, length in blocks(rng, total, names):
+        sizes.append([nm, max(length, 1)])
+        if kind == 20:
+            inp += [[nm, s, e, bbigen.f32bits(rng.choice(NICE))] for (s, e) in bl]
+        else:
+            ent = []
+            for (s, e) in bl:
+                ent.append((s, e))
+                for _ in range(rng.choice([0, 0, 1, 2])):          # nested / identical entries: depth > 1, coverage unchanged
+                    x = rng.randrange(s, e); y = rng.randrange(x, e + 1)
+                    ent.append(rng.choice([(s, e), (x, y), (x, e)]))
+            ent.sort()
+            inp += [[nm, s, e, rng.choice(["", "n%d" % s, "x\t5\t+"])] for (s, e) in ent]
+    return sx([kind, o, sizes, inp, path]), kind, total
+
+
+def f64_of_bits(b):
+    return struct.unpack("<d", struct.pack("<Q", b))[0]
+
+
+def fdiv(x, y):
+    """IEEE-754 binary64 division (Python raises on a zero divisor)"""
+    try:
+        return x / y
+    except ZeroDivisionError:
+        if x == 0 or math.isnan(x):
+            return float("nan")
+        return math.copysign(float("inf"), x) * math.copysign(1.0, y)
+
+
+def fsqrt(x):
+    return float("nan") if (math.isnan(x) or x < 0) else math.sqrt(x)
+
+
+def printed_matches(printed, expected):
+    """the tools print `{:.6}`: re-parse the decimal; tolerance = half a unit of the sixth decimal + 1e-6 relative"""
+    try:
+        p = float(printed)
+    except ValueError:
+        return False
+    if math.isnan(expected) or math.isnan(p):
+        return math.isnan(expected) and math.isnan(p)
+    if math.isinf(expected) or math.isinf(p):
+        return p == expected
+    return abs(p - expected) <= 5.0e-7 + 1e-6 * abs(expected)
+
+
+def ungroup(text):
+    """(value, well-formed) of a number printed with thousands separators: 1-3 digits, then groups of exactly three"""
+    ok = bool(GROUPED.match(text)) and not (len(text) > 1 and text[0] == "0")
+    digits = text.replace(",", "")
+    return (int(digits) if digits.isdigit() else None), ok
 
 class C06(Prop):
     ID = "C06"
@@ -19,12 +123,19 @@ class C06(Prop):
             "chromosome, chromosome order); bigWig: the shared bbi cases with exactly representable values (small dyadics); "
             "non-trivial = accepted input with at least 2 items; distinct = distinct case text")
     CORRESPONDENCE = ("summary (get_summary) and item count (item_count / data count) of the file written by BigBedWrite / BigWigWrite "
-                      "= Model/BedSweep.v bb_total_summary / Model/BigWigWrite.v summary, bit for bit (IEEE model)")
+                      "= Model/BedSweep.v bb_total_summary / Model/BigWigWrite.v summary, bit for bit (IEEE model); info tools (extra stage): "
+                      "files written to disk by the real writers (quick 60, thorough 400; basesCovered = 100, 1000, 5100, 1005100, 10, 999, 100000, ... "
+                      "and random group patterns), the built bigwiginfo / bigbedinfo binaries run on them: itemCount, basesCovered (and "
+                      "primaryDataSize / primaryIndexSize / zoomLevels against the file header) equal the library reader's answers exactly, "
+                      "thousands-separator groups have exactly three digits; mean / min / max / std (and --minmax): the printed `{:.6}` decimal "
+                      "re-parsed and compared with sum/bases, min, max, sqrt((sumsq - sum^2/bases)/(bases-1)) of the library summary within "
+                      "5e-7 + 1e-6 relative - a tolerance only because the tools print rounded decimals")
     TRUSTED = []
     ASSUMPTIONS = ["fewer than 2^24 entries cover one base (the depth counter is an f32 in the code, a natural number in the model)",
                    "sums stay below 2^53 (exact in f64); bigWig values are small dyadics so every intermediate is exact",
                    "libdeflater round-trips (compressed files are read back through the real reader)"]
     PER_CASE_TIMEOUT = 30.0
+    NEED_BINS = True
 
     def gen(self, rng, tier):
         nbb, nbw = (2000, 400) if tier == "quick" else (30000, 5000)
@@ -42,5 +153,112 @@ class C06(Prop):
 
     def shrink_candidates(self, case_text):
         return bedgen68.shrink(case_text)
+
+    # ------------------------------------------------------------------ info tools
+    def extra_checks(self, ctx):
+        return self.info_tool_runs(ctx)
+
+    def info_tool_runs(self, ctx):
+        """the built `bigwiginfo` / `bigbedinfo` binaries on files written by the real writers: every number of the report
+        that restates the summary (itemCount, basesCovered, mean, min, max, std; primaryDataSize / primaryIndexSize against
+        the file header) = the library reader's answer for the same file (harness kinds 20/21)"""
+        tier, seed = ctx["tier"], ctx["seed"]
+        rng = random.Random(seed * 17 + 6)
+        nfiles = 2 * len(BASES_FIXED) + (24 if tier == "quick" else 364)
+        work = tempfile.mkdtemp(prefix="c06-", dir=core.CACHE)
+        res = []; bad = []; files = 0; runs = 0; numbers = 0; targets = set()
+        t0 = time.time()
+        try:
+            cases = []; metas = []
+            for i in range(nfiles):
+                path = os.path.join(work, "f%d.%s" % (i, "bw" if i % 2 == 0 else "bb"))
+                case, kind, total = info_case(rng, i, path)
+                cases.append(case); metas.append((kind, path, total))
+            outs = core.run_impl(self.ID, cases, per_case_timeout=60.0)
+            for (kind, path, total), case, out in zip(metas, cases, outs):
+                lib = parse_sx(out) if out.strip().startswith("(0 ") else None
+                if lib is None or not os.path.exists(path):
+                    bad.append((case, "the writer / library reader did not accept the generated file: %s" % out.strip()[:100], "")); continue
+                files += 1; targets.add(total)
+                items, bases = lib[1][0], lib[1][1]
+                mn, mx, sm, sq = [f64_of_bits(b) for b in lib[1][2:6]]
+                if bases != total:
+                    bad.append((case, "library summary: bases_covered %d, the input covers %d" % (bases, total), out.strip())); continue
+                n = float(bases)
+                mean = fdiv(sm, n)
+                std = fsqrt(fdiv(sq - fdiv(sm * sm, n), n - 1.0))
+                hdr = open(path, "rb").read(64 + 24)
+                zoom_levels = struct.unpack_from("<H", hdr, 6)[0]
+                data_off, index_off = struct.unpack_from("<QQ", hdr, 16)
+                want_int = {"primaryDataSize": index_off - data_off, "basesCovered": bases, "zoomLevels": zoom_levels}
+                if zoom_levels > 0:
+                    want_int["primaryIndexSize"] = struct.unpack_from("<Q", hdr, 64 + 8)[0] - index_off
+                if kind == 20:
+                    tool = "bigwiginfo"; want_f = {"mean": mean, "min": mn, "max": mx, "std": std}
+                else:
+                    tool = "bigbedinfo"; want_f = {"meanDepth": mean, "minDepth": mn, "maxDepth": mx, "std of depth": std}
+                    want_int["itemCount"] = lib[2]
+                    if lib[2] != items:
+                        bad.append((case, "library: item_count() %d, summary.total_items %d" % (lib[2], items), out.strip())); continue
+                def report(extra):
+                    try:
+                        p = subprocess.run([os.path.join(core.BINS_DIR, tool), path] + extra, stdout=subprocess.PIPE, stderr=subprocess.PIPE, timeout=60)
+                        return p.returncode, p.stdout.decode(errors="replace")
+                    except subprocess.TimeoutExpired:
+                        return "timeout", ""
+                rc, text = report([]); runs += 1
+                if rc != 0:
+                    bad.append((case, "%s: exit status %s" % (tool, rc), text[:600])); continue
+                got = {}
+                for line in text.splitlines():
+                    if ": " in line and not line.startswith("\t"):
+                        k, v = line.split(": ", 1)
+                        got.setdefault(k, v.strip())
+                why = []
+                for k, w in want_int.items():
+                    if k not in got:
+                        why.append("%s: line missing" % k); continue
+                    v, wellformed = ungroup(got[k])
+                    numbers += 1
+                    if not wellformed:
+                        why.append("%s printed as `%s`: not 1-3 digits followed by groups of exactly three digits (library / header: %d)" % (k, got[k], w))
+                    elif v != w:
+                        why.append("%s printed as `%s` = %s, library / header: %d" % (k, got[k], v, w))
+                for k, w in want_f.items():
+                    if k not in got:
+                        why.append("%s: line missing" % k); continue
+                    numbers += 1
+                    if not printed_matches(got[k], w):
+                        why.append("%s printed as `%s`, from the library summary: %r" % (k, got[k], w))
+                if kind == 20:
+                    rc2, t2 = report(["--minmax"]); runs += 1
+                    f = t2.split()
+                    numbers += 2
+                    if rc2 != 0 or len(f) != 2 or not printed_matches(f[0], mn) or not printed_matches(f[1], mx):
+                        why.append("--minmax printed `%s`, library min/max: %r %r" % (t2.strip()[:80], mn, mx))
+                if why:
+                    bad.append((case, "%s: %s" % (tool, "; ".join(why)), text[:900]))
+        finally:
+            shutil.rmtree(work, ignore_errors=True)
+        core.log(f"[check] C06 info tools: {files} files ({len(targets)} distinct basesCovered values), {runs} runs of bigwiginfo/bigbedinfo, "
+                 f"{numbers} printed numbers compared with the library reader, {len(bad)} files differing, {round(time.time()-t0,1)} s")
+        res.append(("stat", "info_tool_files", files))
+        res.append(("stat", "info_tool_runs", runs))
+        res.append(("stat", "info_tool_numbers_compared", numbers))
+        res.append(("stat", "info_tool_failures", len(bad)))
+        res.append(("stat", "info_tool_float_comparison", "printed `{:.6}` decimals re-parsed; |printed - library| <= 5e-7 + 1e-6*|library| (only because the "
+                    "tools print rounded decimals); integers (itemCount, basesCovered, sizes) exactly, separator groups of exactly three digits"))
+        if files == 0:
+            res.append(("nofail", "info tools", {"property": "C06", "kind": "proof-or-build-broken",
+                                                 "theorem_or_correspondence": "no input file could be written for the info-tool runs"}))
+        for case, why, got in bad[:3]:
+            res.append(("violation", "info tool", {
+                "property": "C06", "kind": "failing-input", "found_by": "bigwiginfo / bigbedinfo report vs BigWigRead/BigBedRead::get_summary, item_count of the same file",
+                "info_tool_case": case[:6000], "why": why, "observed_impl": got,
+                "oracle": "every number of the info report that restates the summary = the library reader's summary of the file",
+                "how_to_replay": "echo '<info_tool_case>' | .cache/harness-target/debug/c06 writes the file named in the case (create its directory first) and prints "
+                                 "(0 (items bases min max sum sumsq) [item_count]); then run .cache/bins-target/debug/bigwiginfo (kind 20) or bigbedinfo (kind 21) on it"}))
+        return res
+
 
 PROP = C06()
